@@ -194,6 +194,13 @@ func (o rop) run(env *ropEnv) (res string, err error) {
 			if firstErr != nil {
 				return &retriedErr{firstErr, after}
 			}
+			if !o.reuse && !o.early && env.lastIt == it && len(ps)%2 == 1 {
+				// a reader that is done with its iterator closes it - here twice, as an explicit Close followed
+				// by a deferred one does - and forgets it
+				_ = it.Close()
+				_ = it.Close()
+				env.lastIt = nil
+			}
 			if len(ps) > 0 || pl.Count() > 0 {
 				fmt.Fprintf(&sb, "count=%d %v", pl.Count(), ps)
 			}
